@@ -148,11 +148,14 @@ COMPOSITIONS = [
     ('outer-completes', 'complete', None, True, 'mw'),
     ('outer-completes-allow', 'complete_allow', None, True, 'mw'),
     ('outer-raises-req', 'raise_req', None, True, 'mw'),
+    # ... with an error that itself advertises Allow (405): a FAILED exchange that carries an Allow header
+    ('outer-raises-req-allow', 'raise_req_allow', None, True, 'mw'),
     ('inner-raises-resp', None, 'raise_resp', True, 'mw'),
     ('inner-raises-rsrc', None, 'raise_rsrc', True, 'mw'),
     ('inner-sets-allow', None, 'set_allow', True, 'mw'),
     ('dep:alone', None, None, False, 'mw'),
     ('dep:outer-raises-req', 'raise_req', None, False, 'mw'),
+    ('dep:outer-raises-req-allow', 'raise_req_allow', None, False, 'mw'),
     ('dep:outer-completes', 'complete', 'noop', False, 'mw'),
     ('dep:inner-raises-resp', 'noop', 'raise_resp', False, 'mw'),
 ]
@@ -167,7 +170,7 @@ def model_exchange(comp, path, method):
     cors_runs = True
     if outer in ('complete', 'complete_allow'):
         complete = True
-    elif outer == 'raise_req':
+    elif outer in ('raise_req', 'raise_req_allow'):
         exc = True
         if not independent:
             cors_runs = False          # its process_request was never reached
@@ -347,6 +350,9 @@ def build_component(kind, is_async):
         m['process_response'] = noop
     elif kind == 'raise_req':
         m['process_request'] = _raiser(lambda: falcon.HTTPUnauthorized(title='outer'))
+        m['process_response'] = noop
+    elif kind == 'raise_req_allow':
+        m['process_request'] = _raiser(lambda: falcon.HTTPMethodNotAllowed(['GET', 'POST'], title='outer'))
         m['process_response'] = noop
     elif kind == 'raise_resp':
         m['process_response'] = _raiser(lambda: falcon.HTTPServiceUnavailable(title='inner'))
